@@ -72,6 +72,39 @@ impl Pay for HeapVal {
     }
 }
 
+/// Heap-backed value whose `Clone` and `Default` are user callbacks in the sense of the fault enumeration: they are
+/// counted, and a panic can be injected at each of them (the library clones values when a two-children entry is
+/// removed and when the arena grows).  Clone and Default are not among the callbacks C18 lists, so only the
+/// process outcome of everything that follows is judged (C10, crash-only): a caught panic of the caller's own
+/// `Clone` must not turn a later in-contract call into an out-of-bounds access, an assertion failure or a hang.
+#[derive(PartialEq, Debug)]
+pub struct FaultVal(pub Vec<u8>);
+impl Clone for FaultVal {
+    fn clone(&self) -> Self {
+        callback();
+        FaultVal(self.0.clone())
+    }
+}
+impl Default for FaultVal {
+    fn default() -> Self {
+        callback();
+        FaultVal(Vec::new())
+    }
+}
+impl Pay for FaultVal {
+    const NAME: &'static str = "FaultVal";
+    fn mk(key: u8, bit: bool) -> Self {
+        FaultVal(vec![1, key, bit as u8, key ^ 0x5a])
+    }
+    fn code(&self) -> u32 {
+        let mut c = self.0.len() as u32;
+        for b in &self.0 {
+            c = c.wrapping_mul(257).wrapping_add(*b as u32);
+        }
+        c
+    }
+}
+
 /// Value that owns a tracked resource: every instance (made, cloned or defaulted) has a unique id in a
 /// thread-local registry; dropping an id twice or reading a dropped instance raises a flag that the
 /// explorer turns into a violation.  Makes a bitwise duplication of a value (two owners) observable
